@@ -58,3 +58,44 @@ package satisfaction
 //@   loop 1 invariant [filled] forall k int :: 0 <= k && k < iter && dmp.Criteria[k].ValuesRange != nil
 //@             && (forall j int :: k < j && j < iter ==> dmp.Criteria[j].Id != dmp.Criteria[k].Id) ==>
 //@             dmp.Criteria[k].Id in weights && weights[dmp.Criteria[k].Id] == (dmp.Criteria[k].Type == model.Cost ? dmp.Criteria[k].ValuesRange.Max : dmp.Criteria[k].ValuesRange.Min)
+
+// ---- the heuristic's main loop (C13, C01)
+
+// meets: the alternative satisfies the thresholds t on every criterion (signed scale)
+//@ pred meets(alt model.AlternativeWithCriteria, cs []model.Criterion, t model.Weights) =
+//@      forall c int :: 0 <= c && c < len(cs) ==> model.signed(alt, cs[c]) >= model.mult(cs[c]) * t[cs[c].Id]
+//@ pred distinctIds(a []model.AlternativeWithCriteria) = forall i int, j int :: 0 <= i && i < j && j < len(a) ==> a[i].Id != a[j].Id
+//@ pred fromInput(x model.AlternativeWithCriteria, current model.AlternativeWithCriteria, considered []model.AlternativeWithCriteria) =
+//@      x == current || exists j int :: 0 <= j && j < len(considered) && x == considered[j]
+
+//@ func checkWithinSatisfactionLevels
+//@   property C13 C01
+//@   requires [distinct_search_order] distinctIds(considered) && forall j int :: 0 <= j && j < len(considered) ==> considered[j].Id != current.Id
+//@   ensures [every_alternative_once] fresh(result1) && fresh(result2) && len(result1) == 1 + len(considered) && len(result2) == 1 + len(considered)
+//@             && 0 <= result3 && result3 + len(result0) == 1 + len(considered) && distinctIds(result0)
+//@   ensures [accepted_entries] forall k int :: 0 <= k && k < result3 ==> typeis(result1[k].Evaluation, SatisfactionEvaluation) && result2[k] == result1[k].Alternative.Id
+//@             && 0 <= result1[k].Evaluation.(SatisfactionEvaluation).ThresholdsIndex && result1[k].Evaluation.(SatisfactionEvaluation).ThresholdsIndex <= result4
+//@             && fromInput(result1[k].Alternative, current, considered)
+//@   ensures [accepted_really_satisfy] forall k int :: 0 <= k && k < result3 ==> meets(result1[k].Alternative, dmp.Criteria, result1[k].Evaluation.(SatisfactionEvaluation).SatisfiedThresholds)
+//@   ensures [acceptance_order] forall k int, m int :: 0 <= k && k < m && m < result3 ==> result1[k].Evaluation.(SatisfactionEvaluation).ThresholdsIndex <= result1[m].Evaluation.(SatisfactionEvaluation).ThresholdsIndex
+//@   ensures [left_are_inputs] forall k int :: 0 <= k && k < len(result0) ==> fromInput(result0[k], current, considered)
+//@   loop 1 invariant [ctx] fresh(result) && fresh(resultIds) && len(result) == 1 + len(considered) && len(resultIds) == 1 + len(considered) && thresholdIndex >= -1
+//@   loop 1 invariant [count] 0 <= resultInsertIndex && resultInsertIndex + len(leftToChoice) == 1 + len(considered) && distinctIds(leftToChoice)
+//@   loop 1 invariant [accepted] forall k int :: 0 <= k && k < resultInsertIndex ==> typeis(result[k].Evaluation, SatisfactionEvaluation) && resultIds[k] == result[k].Alternative.Id
+//@             && 0 <= result[k].Evaluation.(SatisfactionEvaluation).ThresholdsIndex && result[k].Evaluation.(SatisfactionEvaluation).ThresholdsIndex <= thresholdIndex
+//@             && fromInput(result[k].Alternative, current, considered)
+//@   loop 1 invariant [satisfy] forall k int :: 0 <= k && k < resultInsertIndex ==> meets(result[k].Alternative, dmp.Criteria, result[k].Evaluation.(SatisfactionEvaluation).SatisfiedThresholds)
+//@   loop 1 invariant [order] forall k int, m int :: 0 <= k && k < m && m < resultInsertIndex ==> result[k].Evaluation.(SatisfactionEvaluation).ThresholdsIndex <= result[m].Evaluation.(SatisfactionEvaluation).ThresholdsIndex
+//@   loop 1 invariant [left] forall k int :: 0 <= k && k < len(leftToChoice) ==> fromInput(leftToChoice[k], current, considered)
+//@   loop 2 invariant [ctx] fresh(result) && fresh(resultIds) && len(result) == 1 + len(considered) && len(resultIds) == 1 + len(considered) && thresholdIndex >= 0
+//@             && len(*thresholds) == len(dmp.Criteria) && forall c int :: 0 <= c && c < len(dmp.Criteria) ==> (*thresholds)[c].Criterion == dmp.Criteria[c] && (*thresholds)[c].Weight == t[dmp.Criteria[c].Id]
+//@   loop 2 invariant [scan] len(tempLeftToChoice) <= len(leftToChoice) && len(leftToChoice) - len(tempLeftToChoice) <= iter && fresh(tempLeftToChoice) && arr(tempLeftToChoice) != arr(leftToChoice)
+//@             && forall k int :: iter <= k && k < len(leftToChoice) ==> tempLeftToChoice[k - (len(leftToChoice) - len(tempLeftToChoice))] == leftToChoice[k]
+//@   loop 2 invariant [kept_are_from_the_level_start] forall k int :: 0 <= k && k < len(tempLeftToChoice) ==> exists j int :: 0 <= j && j < len(leftToChoice) && tempLeftToChoice[k] == leftToChoice[j]
+//@   loop 2 invariant [count] 0 <= resultInsertIndex && resultInsertIndex + len(tempLeftToChoice) == 1 + len(considered) && distinctIds(tempLeftToChoice) && distinctIds(leftToChoice)
+//@   loop 2 invariant [accepted] forall k int :: 0 <= k && k < resultInsertIndex ==> typeis(result[k].Evaluation, SatisfactionEvaluation) && resultIds[k] == result[k].Alternative.Id
+//@             && 0 <= result[k].Evaluation.(SatisfactionEvaluation).ThresholdsIndex && result[k].Evaluation.(SatisfactionEvaluation).ThresholdsIndex <= thresholdIndex
+//@             && fromInput(result[k].Alternative, current, considered)
+//@   loop 2 invariant [satisfy] forall k int :: 0 <= k && k < resultInsertIndex ==> meets(result[k].Alternative, dmp.Criteria, result[k].Evaluation.(SatisfactionEvaluation).SatisfiedThresholds)
+//@   loop 2 invariant [order] forall k int, m int :: 0 <= k && k < m && m < resultInsertIndex ==> result[k].Evaluation.(SatisfactionEvaluation).ThresholdsIndex <= result[m].Evaluation.(SatisfactionEvaluation).ThresholdsIndex
+//@   loop 2 invariant [left] forall k int :: 0 <= k && k < len(leftToChoice) ==> fromInput(leftToChoice[k], current, considered)
